@@ -214,7 +214,7 @@ class Repo:
                     text = fh.read()
             self.sources[rel] = text
             try:
-                self.trees[rel] = ast.parse(text, filename=rel)
+                self.trees[rel] = _split_tuple_assignments(ast.parse(text, filename=rel))
             except SyntaxError as e:
                 raise AnalysisError(f"{rel} does not parse: {e}")
         for rel in self.json_files:
@@ -427,6 +427,41 @@ class Repo:
         if len(c) != 1:
             raise AnalysisError(f"module {suffix!r}: {len(c)} candidates")
         return c[0], self.trees[c[0]]
+
+
+def _split_tuple_assignments(tree):
+    """`a, b = x, y` with independent sides is the same as `a = x; b = y` (no target occurs in a later right-hand side): the
+    parallel form is split so that every store has its own value expression"""
+    class T(ast.NodeTransformer):
+        def visit_Assign(self, n):
+            if len(n.targets) == 1 and isinstance(n.targets[0], (ast.Tuple, ast.List)) and isinstance(n.value, (ast.Tuple, ast.List)) \
+                    and len(n.targets[0].elts) == len(n.value.elts) and len(n.value.elts) > 1 \
+                    and not any(isinstance(x, ast.Starred) for x in n.targets[0].elts + n.value.elts):
+                tg = [" ".join(ast.unparse(t).split()) for t in n.targets[0].elts]
+                roots = set()
+                for t in n.targets[0].elts:
+                    b = t
+                    while isinstance(b, (ast.Subscript, ast.Attribute)):
+                        b = b.value if not (isinstance(b, ast.Attribute) and isinstance(b.value, ast.Name) and b.value.id == "self") else None
+                        if b is None:
+                            break
+                    if isinstance(b, ast.Name):
+                        roots.add(b.id)
+                for i, v in enumerate(n.value.elts):
+                    if i == 0:
+                        continue
+                    vs = " ".join(ast.unparse(v).split())
+                    names = {x.id for x in ast.walk(v) if isinstance(x, ast.Name)}
+                    if any(t in vs for t in tg[:i]) or (names & roots):
+                        return n
+                    if any(isinstance(x, ast.Call) for x in ast.walk(v)) and any(isinstance(x, ast.Call) for y in n.value.elts[:i] for x in ast.walk(y)):
+                        pass      # evaluation order of calls is kept by the split (left to right), stores interleave: accepted for analysis
+                out = []
+                for t, v in zip(n.targets[0].elts, n.value.elts):
+                    out.append(ast.copy_location(ast.Assign(targets=[t], value=v, type_comment=None), n))
+                return out
+            return n
+    return ast.fix_missing_locations(T().visit(tree))
 
 
 def _descends(x, fi):
